@@ -60,7 +60,7 @@ def write_replay(prop, sess, idx, clause, outcome, extra=None):
     os.makedirs(REPLAYS, exist_ok=True)
     frames = sess.frames[:idx - 1]                # records[0..1] are cfg/reset; frames parallel records[2:]
     doc = {"property": prop, "clause": clause, "outcome": outcome, "config": sess.cfg.describe(),
-           "frames": [f.hex() if f is not None else None for f in frames],
+           "frames": [({"cfg": f[1]} if isinstance(f, tuple) else f.hex()) if f is not None else None for f in frames],
            "failing_index": len(frames) - 1, "label": sess.label}
     rec = sess.records[idx]
     doc["observed"] = {"out": rec.get("out"), "rep": bytes(rec.get("rep", [])).hex(), "tcb": rec.get("tcb"),
@@ -79,7 +79,7 @@ def shrink(prop, sess, idx, clause):
     to the recorded prefix.  Returns (Session-like for the replay, index)."""
     try:
         frame = sess.frames[idx - 2]
-        if frame is None:
+        if frame is None or isinstance(frame, tuple):
             return sess, idx
         d = Driver(level=sess.cfg.level)
         s2 = Session(d, sess.cfg, sess.label + " (shrunk)")
@@ -172,6 +172,11 @@ def do_replay(prop, path):
                 s.send(batch)
                 batch = []
             s.reset()
+        elif isinstance(f, dict):
+            if batch:
+                s.send(batch)
+                batch = []
+            s.reconfigure(Config.from_desc(f["cfg"]))
         else:
             batch.append(bytes.fromhex(f))
     if batch:
